@@ -106,7 +106,14 @@ def ident_values_changed(func_args, ident):
             if value != old_value:
                 return True
         elif len(var_pieces) == 3 and var_root == var_name:
-            if getattr(value, var_pieces[2], None) != getattr(old_value, var_pieces[2], None):
+            new_attr = getattr(value, var_pieces[2], None)
+            old_attr = getattr(old_value, var_pieces[2], None)
+            if callable(new_attr) or callable(old_attr):
+                # a method of the state value (eg, "d.e.lower() == 'on'"): it depends on the value; two
+                # bound methods never compare equal, so compare the values instead
+                if value != old_value:
+                    return True
+            elif new_attr != old_attr:
                 return True
 
     return False
